@@ -5,22 +5,33 @@ from .core import *
 FORBIDDEN = re.compile(r'\b(Admitted|admit|Axiom|Axioms|Parameter|Parameters|Conjecture|Hypothesis|Hypotheses|Variable|Variables|Context)\b|Unset\s+Guard|bypass_check|Admit\s+Obligations|-type-in-type|-impredicative-set|Unset\s+Universe\s+Checking|Unset\s+Positivity')
 ALLOWED_AXIOMS = set()   # none intended; stdlib axioms that show up get listed here *and* in DESIGN.md
 
+TRANSLATORS = [  # (script, output argument, files it writes, fatal for everyone?)
+    ('consts.py', os.path.join(COQ, 'Generated', 'Consts.v'), ['Generated/Consts.v'], True),
+    ('gadget_shape.py', os.path.join(COQ, 'Generated', 'GadgetShape.v'), ['Generated/GadgetShape.v'], False),
+    ('rs2v.py', os.path.join(COQ, 'Generated'), ['Generated/Curve.v'], False),
+    ('rs2v_gadgets.py', os.path.join(COQ, 'Generated'), ['Generated/GadgetsGen.v'], False),
+]
+LAST_TRANSLATION_ERRORS = []
+
 def regenerate():
-    """Run every translator; files are rewritten only when their content changes."""
-    out = []
-    rc, o = run(['python3', os.path.join(VERIF, 'translator', 'consts.py'), os.path.join(COQ, 'Generated', 'Consts.v')], timeout=120)
-    out.append(o)
-    if rc != 0: return False, '\n'.join(out)
-    gs = os.path.join(VERIF, 'translator', 'gadget_shape.py')
-    if os.path.exists(gs):
-        rc, o = run(['python3', gs, os.path.join(COQ, 'Generated', 'GadgetShape.v')], timeout=120)
+    """Run every translator; files are rewritten only when their content changes.  A function that a translator cannot
+    render is left out of the generated file (a comment marks it): only the theorems that depend on it then fail to check,
+    so a property that does not depend on the changed function is not alarmed.  A translator that crashes has its output
+    removed (no stale model can be used).  Returns (ok, log); ok=False only when the constants cannot be extracted."""
+    out = []; LAST_TRANSLATION_ERRORS.clear()
+    for script, arg, outs, fatal in TRANSLATORS:
+        sp = os.path.join(VERIF, 'translator', script)
+        if not os.path.exists(sp): continue
+        rc, o = run(['python3', sp, arg], timeout=300)
         out.append(o)
-        if rc != 0: return False, '\n'.join(out)
-    tr = os.path.join(VERIF, 'translator', 'rs2v.py')
-    if os.path.exists(tr):
-        rc, o = run(['python3', tr, os.path.join(COQ, 'Generated')], timeout=300)
-        out.append(o)
-        if rc != 0: return False, '\n'.join(out)
+        errs = [l for l in o.split('\n') if l.startswith('TRANSLATION-ERROR')]
+        if rc != 0 and not errs:
+            errs = ['TRANSLATION-ERROR %s crashed: %s' % (script, o.strip().split('\n')[-1][:300])]
+            for f in outs:
+                fp = os.path.join(COQ, f)
+                if os.path.exists(fp): os.remove(fp)
+        LAST_TRANSLATION_ERRORS.extend(errs)
+        if rc != 0 and fatal: return False, '\n'.join(out)
     return True, '\n'.join(out)
 
 def ensure_makefile():
@@ -104,7 +115,7 @@ def proof_stage(ctx, prop_module, vo_targets, prop_files, timeout=3000):
     """Common proof stage: regenerate, make, hygiene, Print Assumptions.  Returns dict with status."""
     st = {'regen_ok': True, 'make_ok': False, 'make_log': '', 'bad_file': None, 'hygiene': [], 'axioms': {}}
     ok, o = regenerate()
-    st['regen_ok'] = ok; st['regen_log'] = o
+    st['regen_ok'] = ok; st['regen_log'] = o; st['translation_errors'] = list(LAST_TRANSLATION_ERRORS)
     if not ok: return st
     ok, o, bad = make(vo_targets, timeout=timeout)
     st['make_ok'], st['make_log'], st['bad_file'] = ok, o[-6000:], bad
